@@ -169,6 +169,19 @@ def judge(d, text, style):
     if sorted(ex) != sorted(canonicalize_name(e) for e in d["extras"]): return f"Provides-Extra {ex}"
     rd = msg.get_all("Requires-Dist") or []
     if bool(rd) != bool(d["extras"]) or any(not r.startswith("requests") for r in rd): return f"Requires-Dist {rd}"   # details: C02
+    if d["extras"]:
+        # every declared extra activates the optional dependency it lists, and nothing does without an extra (reference evaluation)
+        from packaging.requirements import Requirement as PReq
+        try:
+            reqs = [PReq(r) for r in rd]
+        except Exception as e:  # noqa
+            return f"Requires-Dist not a PEP 508 requirement: {rd} ({e})"
+        env0 = {"extra": ""}
+        for e in d["extras"]:
+            if not any(q.marker is not None and q.marker.evaluate({"extra": canonicalize_name(e)}) for q in reqs):
+                return f"extra {e!r} does not activate its dependency: Requires-Dist {rd}"
+        if any(q.marker is None or q.marker.evaluate(env0) for q in reqs):
+            return f"the optional dependency is required without any extra: Requires-Dist {rd}"
     if d["readme"] is not None:
         if msg["Description-Content-Type"] != "text/markdown": return f"content type {msg['Description-Content-Type']!r}"
         body = msg.get_payload()
